@@ -2,35 +2,70 @@
   Scc.Props.C06Generic — Theorem A (C06–C08, the GENERIC simulation): one step of the AxCut positional
   machine (Scc/AxCut/SemPos.lean) on a linearized program is simulated by steps of the abstract
   backend machine (Scc/Backend/AbstractMachine.lean) on the code that the generic code generator
-  produces with the mock backend.  The representation relation `Rel` (Scc/Backend/SimDefs.lean):
-  position i's value is represented by the temporaries 2i (pointer part) and 2i+1 (word part);
-  objects and closure environments live in the abstract heap, reference counts are exact (`HeapOK`);
-  the code of the current statement is at the program counter.
+  produces with the mock backend.
 
-  * `TheoremA_statement`  : the FULL statement (every statement form), kept as a `def … : Prop`.
-  * `TheoremA_run_statement`: its corollary for whole runs (same trace, same result).
-  * `TheoremA_heapfree`   : PROVED — the statement for the heap-free statement forms
-      `lit`, `op`, `print`, `ifc` (both forms), `exit`, `call` in ARBITRARY environments (objects and
-      closures may sit in the other positions; these statements neither read nor change the heap),
-      and `subst` on contexts of integers (all bindings `ext`; the emitted parallel moves are shown
-      correct with the PMoves theorem `parallelMovesFuel_correct`, ProofsPM.lean / ProofsSubst.lean).
-  * `TheoremA_run_int`    : PROVED — whole runs of INTEGER programs (statements `lit op print ifc exit
-      call subst`, all contexts `ext`; loops through `call`): a terminating run of the positional machine
-      is reproduced by the abstract machine on the generated code, same trace, same result.
-  * `TheoremA_alloc`      : PROVED — the statement for the allocating forms `let` and `create` (the
-      `store` contract against the representation and the counting invariant `HeapOK`: a fresh object
-      with count 0 whose fields take over the references of the consumed positions), under
-      `EnoughHeap` (object ids below 2^64) and, for `create`, the closure environment annotated as the
-      context suffix it captures (what `linearize` produces; `LinTyped` only fixes ids/kinds/types).
-    What is missing for the full statement: `subst` with object/closure variables (`erase`/`share`
-    against `HeapOK`, moves of both temporaries), `switch`, `invoke` (`load`, unique and shared case,
-    against `HeapOK`).
-  * `init_rel`: the initial configuration of `Abs.run` represents the initial state of `Pos.run`.
+  PROVED, for EVERY statement form (lit op print ifc exit call subst let switch create invoke):
+  * `TheoremA_full`  (= `TheoremA_full_statement`): every step of the positional machine from a typed,
+      represented state is simulated, and the new state is represented again.
+  * `TheoremA_run`   (= `TheoremA_run_full_statement`): every terminating run of a label-safe,
+      linearly typed program is reproduced by the abstract machine on the generated code: same trace,
+      same result.
+  * fragments by name: `TheoremA_load` (`switch`, `invoke`: the `load` contract, unique case = the block
+      is freed and its children taken over, shared case = count decremented and children shared; proofs
+      `load_sim`, `sim2_switch`, `sim2_invoke` in Scc/Backend/ProofsLoad.lean), `TheoremA_subst`
+      (`subst` with object / closure variables: `erase` / `share` against the counting invariant,
+      moves of both temporaries of a position; `sim2_subst`, `run_cwc` in ProofsSubstObj.lean,
+      `eraseLoop_ok` in ProofsErase.lean, `conns_wf2` in ProofsConn2.lean), and the earlier
+      `TheoremA_heapfree`, `TheoremA_alloc`, `TheoremA_run_int`, `TheoremA_init` (kept, against the
+      original relation `Sim.Rel`).
+
+  The representation relation of `TheoremA_full` is `Sim2.Rel2` (Scc/Backend/SimDefs2.lean), a
+  STRENGTHENING of the original `Sim.Rel` (SimDefs.lean): position i's value is represented by the
+  temporaries 2i (pointer part) and 2i+1 (word part); objects and closure environments live in the
+  abstract heap, reference counts are exact (`HeapOK`); the code of the current statement is at the
+  program counter.  Two things had to change (both needed for `switch`/`invoke`, see SimDefs2.lean):
+    (1) every heap field and every position carries the exact KIND (`prd`/`cns`/`ext`) of the value it
+        represents (`load` compares the full kind lists: `load: kind-mismatch`); `Sim.Rel` only
+        recorded "is `ext`";
+    (2) the code at the program counter / of a closure's methods is the code generated for SOME
+        context with the same KEYS (ids, kinds, types) as the positional machine's context: `create`
+        generates the method code for the context suffix it splits off, `LinTyped` relates that
+        suffix to the annotated environment only up to names, and names influence the emitted code
+        (`transpose` iterates a `BTreeMap` ordered by name first).
+
+  `TheoremA_statement` (the ORIGINAL formulation, kept as a `def … : Prop`) is FALSE: theorem
+  `TheoremA_statement_false : ¬ TheoremA_statement` at the end of this file (`Sim.Rel` does not record
+  whether a heap field is `prd` or `cns` and the statement does not ask for typed values: a `switch` on
+  an object whose field was stored with another kind than the clause declares is a step of the
+  positional machine, but the abstract `load` is stuck).  `TheoremA_run_statement` (kept as well) is
+  the run corollary without the capacity hypotheses (b)–(d) below.  The proved statements differ from
+  the original ones exactly by:
+    (a) `Rel2` instead of `Rel` ((1), (2) above) and `Pos.StateTyped` (the environment is typed:
+        `FieldsTyped`, an invariant of the run by `Pos.step_safe`) instead of `LinTyped` of the statement
+        only — with untyped values a `switch` can find an object whose field kinds are not those of the
+        clause, and the abstract `load` is stuck;
+    (b) `CodeFits code` (fewer than 2^64 instructions): the machine jumps through 64-bit words
+        (`jump t` goes to `(value t).toNat`), so code addresses must fit a word;
+    (c) `EnoughHeap cfg` (next object id below 2^64; already needed by `TheoremA_alloc`), in
+        `TheoremA_run`: `fuel + 1 < 2^64` (the abstract heap never reuses ids; at most one allocation
+        per step of the positional machine);
+    (d) in `TheoremA_run`: the entry's parameters are `ext i64` (not only `ext`), to start the typing
+        invariant (`Pos.ValTyped.int` types integers at `i64`).
+  None of these excludes a program or a run of the real pipeline (all are decidable on the program /
+  checked on the finite run, cf. the non-vacuity examples at the end: a program with objects that are
+  shared, loaded shared and unique, and a program with a closure that is moved and invoked).
+  * `init_relX` (ProofsSim2.lean) / `TheoremA_init`: the initial configuration of `Abs.run` represents
+    the initial state of `Pos.run`.
   * `defsAt_of_compile` (ProofsSim.lean): every definition's code is in the program at its label.
 -/
 import Scc.Backend.ProofsSubst
 import Scc.Backend.ProofsHeap
+import Scc.Backend.ProofsSubstObj
+import Scc.Backend.ProofsLoad
+import Scc.Backend.ProofsHeap2
+import Scc.Backend.ProofsKeys
 import Scc.AxCut.LinTyping
+import Scc.AxCut.PosSafe
 import Scc.Props.C14Generic
 
 set_option linter.unusedVariables false
@@ -60,8 +95,10 @@ def StepSimulated (P : Program) (hooks : Bool) (prog : Prog) (st : Pos.State) (c
     ∃ k cfg', stepsTo P k cfg cfg' ∧ cfg'.out = cfg.out ∧ Abs.step P cfg' = .halt (.done v)
   | .stuck _ => True
 
-/-- THEOREM A (full statement): for the code of a label-safe, linearly typed program, every step of
-    the positional machine from a represented, typed state is simulated. -/
+/-- THEOREM A, ORIGINAL formulation (relation `Sim.Rel`, only the statement typed): for the code of a
+    label-safe, linearly typed program, every step of the positional machine from a represented state
+    is simulated.  FALSE as it stands (`TheoremA_statement_false`); the formulation that is proved is
+    `TheoremA_full_statement` (`TheoremA_full`). -/
 def TheoremA_statement : Prop :=
   ∀ (hooks : Bool) (prog : Prog) (c : Nat) (code : List MockOp) (nargs c' : Nat),
     (compile mockSym hooks prog).run c = .ok ((code, nargs), c') →
@@ -77,8 +114,10 @@ inductive Reachable (prog : Prog) (st0 : Pos.State) : Pos.State → Prop where
   | step {st st' : Pos.State} {o : Option (Bool × Word)} :
     Reachable prog st0 st → Pos.step prog st = .next st' o → Reachable prog st0 st'
 
-/-- corollary for whole runs: a terminating run of the positional machine is reproduced, trace and
-    result, by the abstract machine on the generated code (for some amount of fuel) -/
+/-- corollary for whole runs, ORIGINAL formulation: a terminating run of the positional machine is
+    reproduced, trace and result, by the abstract machine on the generated code (for some amount of
+    fuel).  Proved with three more capacity / typing hypotheses as `TheoremA_run`
+    (`TheoremA_run_full_statement`): `CodeFits code`, entry parameters of type `i64`, `fuel + 1 < 2^64`. -/
 def TheoremA_run_statement : Prop :=
   ∀ (hooks : Bool) (prog : Prog) (c : Nat) (code : List MockOp) (nargs c' : Nat) (d0 : Def)
     (args : List Word) (fuel : Nat) (out : List (Bool × Word)) (v : Word),
@@ -660,9 +699,651 @@ example : ∃ (code : List MockOp) (fuel' : Nat),
     (capacity_of_run loopProg 40 _ (by decide) (by decide)) hrun
   exact ⟨code, fuel', h⟩
 
+/-! # the full theorem (strengthened relation `Rel2`) -/
+
+open Scc.Backend.Sim2 Scc.Backend.Keys
+
+/-! ## THEOREM A, every statement form -/
+
+/-- code addresses fit a word (the machine jumps through words) -/
+def CodeFits (code : List MockOp) : Prop := instrCount code < 2 ^ 64
+
+instance (code : List MockOp) : Decidable (CodeFits code) := by unfold CodeFits; infer_instance
+
+theorem fits_of_codeFits {code : List MockOp} (h : CodeFits code) : Fits (Program.ofOps code) := by
+  unfold Fits Program.ofOps
+  simp only [List.size_toArray]
+  rw [layout_fst_length]
+  exact h
+
+/-- the simulation claim for ONE step from a state represented up to names (`Rel2`); the machine
+    allocates at most one object -/
+def StepSimulated2 (P : Program) (hooks : Bool) (prog : Prog) (st : Pos.State) (cfg : Config) : Prop :=
+  match Pos.step prog st with
+  | .next st' o =>
+    WithinCapacity st'.ctx →
+    ∃ k cfg', stepsTo P k cfg cfg' ∧ cfg'.out = outAfter o cfg.out ∧ cfg'.next ≤ cfg.next + 1 ∧
+      Rel2 P hooks prog st' cfg'
+  | .done v =>
+    ∃ k cfg', stepsTo P k cfg cfg' ∧ cfg'.out = cfg.out ∧ Abs.step P cfg' = .halt (.done v)
+  | .stuck _ => True
+
+/-- THEOREM A, the statement that is PROVED (`TheoremA_full`): `TheoremA_statement` with the
+    strengthened relation `Rel2`, typed states, code that fits the address space, room in the heap -/
+def TheoremA_full_statement : Prop :=
+  ∀ (hooks : Bool) (prog : Prog) (c : Nat) (code : List MockOp) (nargs c' : Nat),
+    (compile mockSym hooks prog).run c = .ok ((code, nargs), c') →
+    LabelSafe prog = true → LinTypedProg prog → CodeFits code →
+    ∀ (st : Pos.State) (cfg : Config),
+      Rel2 (Program.ofOps code) hooks prog st cfg →
+      Pos.StateTyped prog st → EnoughHeap cfg →
+      StepSimulated2 (Program.ofOps code) hooks prog st cfg
+
+/-- THEOREM A for whole runs, the statement that is PROVED (`TheoremA_run`): `TheoremA_run_statement`
+    plus `CodeFits`, entry parameters of type `i64`, fewer than `2^64` steps -/
+def TheoremA_run_full_statement : Prop :=
+  ∀ (hooks : Bool) (prog : Prog) (c : Nat) (code : List MockOp) (nargs c' : Nat) (d0 : Def)
+    (args : List Word) (fuel : Nat) (out : List (Bool × Word)) (v : Word),
+    (compile mockSym hooks prog).run c = .ok ((code, nargs), c') →
+    LabelSafe prog = true → LinTypedProg prog → CodeFits code → prog.defs.head? = some d0 →
+    (∀ b ∈ d0.ctx, b.chi = .ext ∧ b.ty = .i64) →
+    (∀ st, Reachable prog ⟨d0.ctx, args.map .int, d0.body⟩ st → WithinCapacity st.ctx) →
+    fuel + 1 < 2 ^ 64 →
+    Pos.run prog args fuel = ⟨out, .done v⟩ →
+    ∃ fuel', Abs.run code (d0.name.print ++ "_") args fuel' = ⟨out, .done v⟩
+
+theorem kindOf_of_typed {P : Prog} {v : Value} {c : Chi} {t : Ty} (h : ValTyped P v c t) : kindOf v = c := by
+  cases h <;> rfl
+
+theorem kinds_of_fieldsTyped {P : Prog} : ∀ {vs : List Value} {cts : List (Chi × Ty)},
+    FieldsTyped P vs cts → vs.map kindOf = cts.map (·.1)
+  | _, _, .nil => rfl
+  | _, _, .cons hv hvs => by simp [kindOf_of_typed hv, kinds_of_fieldsTyped hvs]
+
+theorem chiTys_fst (Γ : Ctx) : (Ctx.chiTys Γ).map (·.1) = Mock.kindsOf Γ := by
+  simp [Ctx.chiTys, Mock.kindsOf]
+
+theorem clausesMatch_length : ∀ (xs : List XtorSig) (cs : Clauses), ClausesMatch xs cs → cs.length = xs.length
+  | [], .nil, _ => rfl
+  | [], .cons _ _ _ _, h => by simp [ClausesMatch] at h
+  | _ :: _, .nil, h => by simp [ClausesMatch] at h
+  | x :: xs, .cons n ctx b rest, h => by
+    simp only [ClausesMatch] at h
+    simp [Clauses.length, clausesMatch_length xs rest h.2.2]
+
+theorem fresh_of_nodup_snoc {Γ0 : Ctx} {b : Binding} (hn : NodupIds (Γ0 ++ [b])) : b.var.id ∉ Γ0.ids := by
+  unfold NodupIds Ctx.ids at *
+  rw [List.map_append, List.nodup_append] at hn
+  intro hm
+  exact hn.2.2 _ hm _ (by simp) rfl
+
+/-- THEOREM A (every statement form): for the code of a label-safe, linearly typed program whose code
+    fits the address space, every step of the positional machine from a typed state represented by a
+    configuration with room in the heap is simulated, and the new state is represented again. -/
+theorem TheoremA_full (hooks : Bool) (prog : Prog) (c : Nat) (code : List MockOp) (nargs c' : Nat)
+    (hcomp : (compile mockSym hooks prog).run c = .ok ((code, nargs), c'))
+    (hsafe : LabelSafe prog = true) (htp : LinTypedProg prog) (hfit : CodeFits code)
+    (st : Pos.State) (cfg : Config)
+    (R : Rel2 (Program.ofOps code) hooks prog st cfg)
+    (T : Pos.StateTyped prog st) (hheap : EnoughHeap cfg) :
+    StepSimulated2 (Program.ofOps code) hooks prog st cfg := by
+  have hnodup := C14Generic.labels_unique hooks prog c code nargs c' hcomp hsafe
+  have D := defsAt_of_compile hooks prog c code nargs c' hcomp hnodup
+  have hfits := fits_of_codeFits hfit
+  obtain ⟨Γ, ρ, s⟩ := st
+  obtain ⟨Γ', hk, RX⟩ := R
+  obtain ⟨hty, henv⟩ := T
+  simp only at hk RX hty henv
+  have hlenk : Γ'.length = Γ.length := keys_length hk
+  unfold StepSimulated2
+  cases hty with
+  | lit hn hfr hnext =>
+    rename_i x n next fv
+    simp only [Pos.step]
+    intro hcap
+    obtain ⟨cfg', h1, h2, h3, h4⟩ := sim2_lit RX (mem_ids_keys hk hfr)
+      (by simp [WithinCapacity] at hcap; omega)
+    exact ⟨1, cfg', h1, h2, by omega, Γ' ++ [⟨x, .ext, .i64⟩], keys_append hk rfl, h4⟩
+  | op hn ha hb hfr hnext =>
+    rename_i x a o b next fv
+    simp only [Pos.step]
+    cases hra : readInt Γ ρ a with
+    | error e => simp
+    | ok va =>
+      cases hrb : readInt Γ ρ b with
+      | error e => simp
+      | ok vb =>
+        cases hv : Pos.evalOp o va vb with
+        | error e => simp [hv]
+        | ok v =>
+          simp only [hv]
+          intro hcap
+          obtain ⟨cfg', h1, h2, h3, h4⟩ := sim2_op RX (mem_ids_keys hk hfr)
+            (by simp [WithinCapacity] at hcap; omega)
+            (by rw [readInt_keys hk]; exact hra) (by rw [readInt_keys hk]; exact hrb) hv
+          exact ⟨1, cfg', h1, h2, by omega, Γ' ++ [⟨x, .ext, .i64⟩], keys_append hk rfl, h4⟩
+  | print hn ha hnext =>
+    rename_i nl a next fv
+    simp only [Pos.step]
+    cases hra : readInt Γ ρ a with
+    | error e => simp
+    | ok v =>
+      simp only
+      intro _
+      obtain ⟨cfg', h1, h2, h3, h4⟩ := sim2_print RX (by rw [readInt_keys hk]; exact hra)
+      exact ⟨1, cfg', h1, h2, by omega, Γ', hk, h4⟩
+  | ifc hn ha hb ht he =>
+    rename_i srt a b t e
+    simp only [Pos.step]
+    cases hra : readInt Γ ρ a with
+    | error err => simp
+    | ok va =>
+      cases b with
+      | none =>
+        simp only
+        intro _
+        obtain ⟨cfg', h1, h2, h3, h4⟩ := sim2_ifc (b := none) (vb := 0) RX
+          (by rw [readInt_keys hk]; exact hra) rfl
+        exact ⟨1, cfg', h1, h2, by omega, Γ', hk, h4⟩
+      | some b' =>
+        simp only
+        cases hrb : readInt Γ ρ b' with
+        | error err => simp
+        | ok vb =>
+          simp only
+          intro _
+          obtain ⟨cfg', h1, h2, h3, h4⟩ := sim2_ifc (b := some b') (vb := vb) RX
+            (by rw [readInt_keys hk]; exact hra) (by simp only; rw [readInt_keys hk]; exact hrb)
+          exact ⟨1, cfg', h1, h2, by omega, Γ', hk, h4⟩
+  | exit hn ha =>
+    rename_i a
+    simp only [Pos.step]
+    cases hra : readInt Γ ρ a with
+    | error e => simp
+    | ok v =>
+      simp only
+      obtain ⟨cfg', h1, h2, h3⟩ := sim2_exit RX (by rw [readInt_keys hk]; exact hra)
+      exact ⟨1, cfg', h1, h2, h3⟩
+  | call hn hf hc =>
+    rename_i l args params
+    simp only [Pos.step]
+    cases hd : Pos.findDef prog.defs l with
+    | none => simp
+    | some d =>
+      simp only
+      by_cases hsh : Pos.chiTys Γ ≠ Pos.chiTys d.ctx ∨ ρ.length ≠ Γ.length
+      · simp [hsh]
+      · simp only [hsh, if_false]
+        intro _
+        have hchi : Pos.chiTys Γ = Pos.chiTys d.ctx := by
+          by_cases h : Pos.chiTys Γ = Pos.chiTys d.ctx
+          · exact h
+          · exact absurd (Or.inl h) hsh
+        obtain ⟨cfg', h1, h2, h3, h4⟩ := sim2_call RX D hd (by rw [keys_chiTys hk]; exact hchi)
+        exact ⟨1, cfg', h1, h2, by omega, d.ctx, rfl, h4⟩
+  | subst hn hhas hnew hnext =>
+    rename_i pairs next
+    simp only [Pos.step]
+    cases hb : Pos.step.build Γ ρ pairs with
+    | error e => simp
+    | ok vs =>
+      simp only
+      intro hcap
+      have hnew' : (pairs.map (·.1.var.id)).Nodup := by
+        have : ((pairs.map (·.1)).map (·.var.id)).Nodup := hnew
+        rw [List.map_map] at this
+        exact this
+      have hold : ∀ p ∈ pairs, ∃ b ∈ Γ', b.var.id = p.2.id ∧ b.chi = p.1.chi := by
+        intro p hp
+        obtain ⟨b, hb', hid, hchi, _⟩ := hasVar_keys hk (hhas p hp)
+        exact ⟨b, hb', hid, hchi⟩
+      obtain ⟨k, cfg', h1, h2, h3, h4⟩ := sim2_subst RX (nodup_keys hk hn) hnew' hold
+        (by simpa [WithinCapacity] using hcap) (by rw [build_keys hk]; exact hb)
+      exact ⟨k, cfg', h1, h2, by omega, pairs.map (·.1), rfl, h4⟩
+  | @letS _ Γ0 Γa x ty tag args sig next fv hn hsplit hkeys hs hs' hfr hnext =>
+    have hlenA : Γa.length = args.length := keys_length hkeys
+    have hsplit' : Γ = Γ0 ++ Γa := hsplit
+    have hkA : args.length ≤ Γ.length := by rw [hsplit']; simp; omega
+    simp only [Pos.step]
+    by_cases hsh : Γ.length < args.length ∨ ρ.length ≠ Γ.length
+    · rw [if_pos hsh]; trivial
+    · rw [if_neg hsh]
+      cases hpos : Pos.tagPosition prog.types ty tag with
+      | error e => trivial
+      | ok pos =>
+        simp only
+        intro hcap
+        have hn0 : Γ.length - args.length = Γ0.length := by rw [hsplit']; simp; omega
+        have htake : Γ.take (Γ.length - args.length) = Γ0 := by
+          rw [← hlenA]; exact take_of_append hsplit'
+        have hkt : Ctx.keys (Γ'.take (Γ'.length - args.length)) = Γ0.keys := by
+          rw [hlenk, keys_take hk, htake]
+        obtain ⟨cfg', h1, h2, h3, h4⟩ := sim2_let RX (by rw [hlenk]; exact hkA)
+          (mem_ids_keys hkt hfr) hpos
+          (by
+            simp only [WithinCapacity, htake, List.length_append, List.length_singleton] at hcap
+            rw [hlenk, hn0]; exact hcap) hheap
+        refine ⟨2, cfg', h1, h2, h3, _, ?_, by rw [hlenk] at h4; exact h4⟩
+        show Ctx.keys (Γ'.take (Γ.length - args.length) ++ [_]) =
+          Ctx.keys (Γ.take (Γ.length - args.length) ++ [_])
+        rw [htake, ← hlenk]
+        exact keys_append hkt rfl
+  | @create _ Γn Γe Γc x ty clauses next fc fn d hn hsplit hkeys hd hm hcl hfr hnext =>
+    have hlenE : Γe.length = Γc.length := keys_length hkeys
+    have hsplit' : Γ = Γn ++ Γe := hsplit
+    have hkA : Γc.length ≤ Γ.length := by rw [hsplit']; simp; omega
+    simp only [Pos.step]
+    by_cases hsh : Γ.length < Γc.length ∨ ρ.length ≠ Γ.length
+    · rw [if_pos hsh]; trivial
+    · rw [if_neg hsh]
+      simp only
+      intro hcap
+      have hn0 : Γ.length - Γc.length = Γn.length := by rw [hsplit']; simp; omega
+      have htake : Γ.take (Γ.length - Γc.length) = Γn := by
+        rw [← hlenE]; exact take_of_append hsplit'
+      have hdrop : Γ.drop (Γ.length - Γc.length) = Γe := by
+        rw [hn0, hsplit']; simp
+      have hkt : Ctx.keys (Γ'.take (Γ'.length - Γc.length)) = Γn.keys := by
+        rw [hlenk, keys_take hk, htake]
+      have hkd : Ctx.keys (Γ'.drop (Γ'.length - Γc.length)) = Γc.keys := by
+        rw [hlenk, keys_drop hk, hdrop]; exact hkeys
+      obtain ⟨cfg', h1, h2, h3, h4⟩ := sim2_create RX (by rw [hlenk]; exact hkA) hkd
+        (mem_ids_keys hkt hfr)
+        (by
+          simp only [WithinCapacity, htake, List.length_append, List.length_singleton] at hcap
+          rw [hlenk, hn0]; exact hcap) hheap
+      refine ⟨2, cfg', h1, h2, h3, _, ?_, by rw [hlenk] at h4; exact h4⟩
+      show Ctx.keys (Γ'.take (Γ.length - Γc.length) ++ [_]) =
+        Ctx.keys (Γ.take (Γ.length - Γc.length) ++ [_])
+      rw [htake, ← hlenk]
+      exact keys_append hkt rfl
+  | @switch _ Γ0 b x ty cs fv d hn hsplit hb hd hm hcl =>
+    subst hsplit
+    obtain ⟨ρ', v, rfl, hρ', hv⟩ := Pos.env_last henv
+    have hbid : b.var.id = x.id := congrArg (·.1) hb
+    have hbchi : b.chi = .prd := congrArg (·.2.1) hb
+    have hbty : b.ty = ty := congrArg (·.2.2) hb
+    rw [hbchi, hbty] at hv
+    have hlen : (ρ' ++ [v]).length = (Γ0 ++ [b]).length := by
+      rw [henv.length_eq, Pos.chiTys_length]
+    have hcnd : ¬ (b.var.id ≠ x.id ∨ (ρ' ++ [v]).length ≠ (Γ0 ++ [b]).length) := by
+      simp [hbid, hlen]
+    cases hv with
+    | obj hd' hx hf =>
+      rename_i d' tag xt fields
+      have := Pos.lookupTypeDecl_unique hd hd'
+      subst this
+      obtain ⟨cl, hc1, hc2, hc3⟩ := Pos.nthClause_ok d.xtors cs tag xt hm hx
+      have hfl : fields.length = cl.ctx.length := by
+        rw [hf.length_eq, hc2, Pos.chiTys_length]
+      simp only [Pos.step, List.getLast?_concat, if_neg hcnd, hc1, hfl, ne_eq, not_true_eq_false,
+        if_false, List.dropLast_concat]
+      intro hcap
+      obtain ⟨Γ0', b', rfl, hk0, hkb⟩ := keys_snoc hk
+      have hb'id : b'.var.id = x.id := by
+        have := congrArg (·.1) hkb
+        simp only [Binding.key] at this
+        rw [this]; exact hbid
+      have hkinds : fields.map kindOf = Mock.kindsOf cl.ctx := by
+        rw [kinds_of_fieldsTyped hf, hc2, chiTys_fst]
+      have hfr : x.id ∉ Γ0.ids := by rw [← hbid]; exact fresh_of_nodup_snoc hn
+      obtain ⟨k, cfg', h1, h2, h3, h4⟩ := sim2_switch RX hfits hb'id (mem_ids_keys hk0 hfr) hc1 hkinds
+        (by
+          simp only [WithinCapacity, List.length_append] at hcap
+          rw [keys_length hk0]; exact hcap)
+      exact ⟨k, cfg', h1, h2, by omega, Γ0' ++ cl.ctx, keys_append hk0 rfl, h4⟩
+  | @invoke _ Γa b x tag ty args sig hn hsplit hb hs hs' =>
+    subst hsplit
+    obtain ⟨ρ', v, rfl, hρ', hv⟩ := Pos.env_last henv
+    have hbid : b.var.id = x.id := congrArg (·.1) hb
+    have hbchi : b.chi = .cns := congrArg (·.2.1) hb
+    have hbty : b.ty = ty := congrArg (·.2.2) hb
+    rw [hbchi, hbty] at hv
+    have hlen : (ρ' ++ [v]).length = (Γa ++ [b]).length := by
+      rw [henv.length_eq, Pos.chiTys_length]
+    have hcnd : ¬ (b.var.id ≠ x.id ∨ (ρ' ++ [v]).length ≠ (Γa ++ [b]).length) := by
+      simp [hbid, hlen]
+    obtain ⟨d, xt, i, hd, hx, hxs, htp'⟩ := Pos.tagPosition_ok hs
+    cases hv with
+    | clo hd' hm hf hcl =>
+      rename_i d' Γc env cs
+      have := Pos.lookupTypeDecl_unique hd hd'
+      subst this
+      obtain ⟨cl, hc1, hc2, hc3⟩ := Pos.nthClause_ok d.xtors cs i xt hm hx
+      have hal : (Γa ++ [b]).length - 1 = cl.ctx.length := by
+        have : Γa.length = cl.ctx.length := by
+          rw [← Pos.chiTys_length Γa, hs', ← hxs, hc2, Pos.chiTys_length]
+        simp [this]
+      simp only [Pos.step, List.getLast?_concat, if_neg hcnd, htp', hc1, hal, ne_eq, not_true_eq_false,
+        if_false, List.dropLast_concat]
+      intro hcap
+      obtain ⟨Γa', b', rfl, hk0, hkb⟩ := keys_snoc hk
+      have hb'id : b'.var.id = x.id := by
+        have := congrArg (·.1) hkb
+        simp only [Binding.key] at this
+        rw [this]; exact hbid
+      have hkinds : env.map kindOf = Mock.kindsOf Γc := by
+        rw [kinds_of_fieldsTyped hf, chiTys_fst]
+      have hfr : x.id ∉ Γa.ids := by rw [← hbid]; exact fresh_of_nodup_snoc hn
+      have hargs : Γa'.map (·.chi) = cl.ctx.map (·.chi) := by
+        rw [keys_chi hk0]
+        have h1 : Ctx.chiTys Γa = Ctx.chiTys cl.ctx := by rw [hs', ← hxs, hc2]
+        have := congrArg (List.map (·.1)) h1
+        simpa [Ctx.chiTys, Function.comp_def] using this
+      obtain ⟨k, cfg', envCtx', hke, h1, h2, h3, h4⟩ := sim2_invoke RX hfits hb'id
+        (mem_ids_keys hk0 hfr) htp' hc1
+        (fun d0 hd0 => by
+          have := Pos.lookupTypeDecl_unique hd hd0
+          subst this
+          exact clausesMatch_length _ _ hm)
+        hargs hkinds
+        (by simpa [WithinCapacity] using hcap)
+      exact ⟨k, cfg', h1, h2, by omega, cl.ctx ++ envCtx', keys_append rfl hke, h4⟩
+
+/-- the `load` fragment: `switch` and `invoke` (unique and shared blocks) -/
+def IsLoad : Stmt → Prop
+  | .switch _ _ _ _ => True
+  | .invoke _ _ _ _ => True
+  | _ => False
+
+/-- THEOREM A for `switch` / `invoke` (instance of `TheoremA_full`; the proofs are `sim2_switch`,
+    `sim2_invoke`, `load_sim` in Scc/Backend/ProofsLoad.lean) -/
+theorem TheoremA_load (hooks : Bool) (prog : Prog) (c : Nat) (code : List MockOp) (nargs c' : Nat)
+    (hcomp : (compile mockSym hooks prog).run c = .ok ((code, nargs), c'))
+    (hsafe : LabelSafe prog = true) (htp : LinTypedProg prog) (hfit : CodeFits code)
+    (st : Pos.State) (cfg : Config)
+    (R : Rel2 (Program.ofOps code) hooks prog st cfg)
+    (T : Pos.StateTyped prog st) (hheap : EnoughHeap cfg) (hs : IsLoad st.stmt) :
+    StepSimulated2 (Program.ofOps code) hooks prog st cfg :=
+  TheoremA_full hooks prog c code nargs c' hcomp hsafe htp hfit st cfg R T hheap
+
+/-- THEOREM A for `subst` on arbitrary contexts: erase / share against `HeapOK`, moves of both
+    temporaries (instance of `TheoremA_full`; the proof is `sim2_subst` in ProofsSubstObj.lean) -/
+theorem TheoremA_subst (hooks : Bool) (prog : Prog) (c : Nat) (code : List MockOp) (nargs c' : Nat)
+    (hcomp : (compile mockSym hooks prog).run c = .ok ((code, nargs), c'))
+    (hsafe : LabelSafe prog = true) (htp : LinTypedProg prog) (hfit : CodeFits code)
+    (Γ : Ctx) (ρ : List Value) (pairs : List (Binding × Ident)) (next : Stmt) (cfg : Config)
+    (R : Rel2 (Program.ofOps code) hooks prog ⟨Γ, ρ, .subst pairs next⟩ cfg)
+    (T : Pos.StateTyped prog ⟨Γ, ρ, .subst pairs next⟩) (hheap : EnoughHeap cfg) :
+    StepSimulated2 (Program.ofOps code) hooks prog ⟨Γ, ρ, .subst pairs next⟩ cfg :=
+  TheoremA_full hooks prog c code nargs c' hcomp hsafe htp hfit _ cfg R T hheap
+
+/-! ## whole runs -/
+
+/-- the run of a typed program from a represented state is reproduced by the machine -/
+theorem run_full_aux (hooks : Bool) (prog : Prog) (c : Nat) (code : List MockOp) (nargs c' : Nat)
+    (hcomp : (compile mockSym hooks prog).run c = .ok ((code, nargs), c'))
+    (hsafe : LabelSafe prog = true) (htp : LinTypedProg prog) (hfit : CodeFits code) :
+    ∀ (fuel : Nat) (st : Pos.State) (acc : List (Bool × Word)) (cfg : Config)
+      (out : List (Bool × Word)) (v : Word),
+      Pos.StateTyped prog st → (∀ st', Reachable prog st st' → WithinCapacity st'.ctx) →
+      Rel2 (Program.ofOps code) hooks prog st cfg → cfg.out = acc → cfg.next + fuel < 2 ^ 64 →
+      Pos.runState prog fuel st acc = ⟨out, .done v⟩ →
+      ∃ fuel', Abs.runFrom (Program.ofOps code) fuel' cfg = ⟨out, .done v⟩
+  | 0, st, acc, cfg, out, v, _, _, _, _, _, h => by simp [Pos.runState] at h
+  | fuel + 1, st, acc, cfg, out, v, T, hcap, R, hacc, hnext, h => by
+    have hsim := TheoremA_full hooks prog c code nargs c' hcomp hsafe htp hfit st cfg R T
+      (by unfold EnoughHeap; omega)
+    have hsafe' := Pos.step_safe htp st T
+    unfold StepSimulated2 at hsim
+    simp only [Pos.runState] at h
+    cases hs : Pos.step prog st with
+    | stuck w => simp [hs] at h
+    | done v' =>
+      simp only [hs] at h hsim
+      obtain ⟨k, cfg', h1, h2, h3⟩ := hsim
+      simp only [Pos.Behaviour.mk.injEq, Pos.Result.done.injEq] at h
+      obtain ⟨rfl, rfl⟩ := h
+      refine ⟨k + 1, ?_⟩
+      rw [runFrom_steps _ k 1 cfg cfg' h1]
+      simp [Abs.runFrom, h3, h2, hacc]
+    | next st' o =>
+      simp only [hs] at h hsim
+      rw [hs] at hsafe'
+      obtain ⟨k, cfg', h1, h2, h3, h4⟩ := hsim (hcap st' (Reachable.step Reachable.refl hs))
+      have hacc' : cfg'.out = outAfter o acc := by rw [h2, hacc]
+      have h' : Pos.runState prog fuel st' (outAfter o acc) = ⟨out, .done v⟩ := by
+        cases o <;> exact h
+      obtain ⟨fuel', hf⟩ := run_full_aux hooks prog c code nargs c' hcomp hsafe htp hfit fuel st'
+        (outAfter o acc) cfg' out v hsafe'
+        (fun st'' hr => hcap st'' (reachable_prepend hs hr)) h4 hacc' (by omega) h'
+      exact ⟨k + fuel', by rw [runFrom_steps _ k fuel' cfg cfg' h1]; exact hf⟩
+
+/-- THEOREM A for whole runs: every terminating run of a label-safe, linearly typed program whose
+    entry takes integers is reproduced by the abstract machine on the generated code — same trace,
+    same result — provided the code fits the address space, every context of the run is within the
+    capacity of the numbering of temporaries, and the run is shorter than `2^64` steps (object ids
+    are never reused by the abstract heap). -/
+theorem TheoremA_run (hooks : Bool) (prog : Prog) (c : Nat) (code : List MockOp) (nargs c' : Nat)
+    (d0 : Def) (args : List Word) (fuel : Nat) (out : List (Bool × Word)) (v : Word)
+    (hcomp : (compile mockSym hooks prog).run c = .ok ((code, nargs), c'))
+    (hsafe : LabelSafe prog = true) (htp : LinTypedProg prog) (hfit : CodeFits code)
+    (hd : prog.defs.head? = some d0)
+    (hentry : ∀ b ∈ d0.ctx, b.chi = .ext ∧ b.ty = .i64)
+    (hcap : ∀ st, Reachable prog ⟨d0.ctx, args.map .int, d0.body⟩ st → WithinCapacity st.ctx)
+    (hfuel : fuel + 1 < 2 ^ 64)
+    (hrun : Pos.run prog args fuel = ⟨out, .done v⟩) :
+    ∃ fuel', Abs.run code (d0.name.print ++ "_") args fuel' = ⟨out, .done v⟩ := by
+  have hmem : d0 ∈ prog.defs := by
+    cases hdefs : prog.defs with
+    | nil => rw [hdefs] at hd; simp at hd
+    | cons d ds => rw [hdefs] at hd; simp at hd; subst hd; simp
+  have hnodup := C14Generic.labels_unique hooks prog c code nargs c' hcomp hsafe
+  unfold Pos.run at hrun
+  cases hdefs : prog.defs with
+  | nil => rw [hdefs] at hd; simp at hd
+  | cons d ds =>
+    rw [hdefs] at hd hrun
+    simp only [List.head?_cons, Option.some.injEq] at hd
+    subst hd
+    simp only at hrun
+    by_cases hlen : d.ctx.length ≠ args.length
+    · simp [hlen] at hrun
+    · simp only [hlen, if_false] at hrun
+      have hlen' : d.ctx.length = args.length := by omega
+      obtain ⟨a, hlab, RX, hn1⟩ := init_relX hooks prog c code nargs c' hcomp hnodup d hmem
+        (fun b hb => (hentry b hb).1) args hlen' (hcap _ Reachable.refl)
+      have T : Pos.StateTyped prog ⟨d.ctx, args.map .int, d.body⟩ :=
+        ⟨htp d hmem, Pos.ints_typed d.ctx args hlen' hentry⟩
+      obtain ⟨fuel', hf⟩ := run_full_aux hooks prog c code nargs c' hcomp hsafe htp hfit fuel _ []
+        (initConfig a args) out v T hcap ⟨d.ctx, rfl, RX⟩ rfl (by rw [hn1]; omega) hrun
+      refine ⟨fuel', ?_⟩
+      unfold Abs.run
+      have hdup : duplicateLabel (Program.ofOps code).labels = none := by
+        apply duplicateLabel_none
+        show ((layout code 0).2.map (·.1)).Nodup
+        rw [layout_snd_names, labelNames_eq_dfns]
+        exact hnodup
+      simp only [hdup, hlab]
+      exact hf
+
+theorem TheoremA_full_holds : TheoremA_full_statement :=
+  fun hooks prog c code nargs c' hcomp hsafe htp hfit st cfg R T hheap =>
+    TheoremA_full hooks prog c code nargs c' hcomp hsafe htp hfit st cfg R T hheap
+
+theorem TheoremA_run_holds : TheoremA_run_full_statement :=
+  fun hooks prog c code nargs c' d0 args fuel out v hcomp hsafe htp hfit hd hentry hcap hfuel hrun =>
+    TheoremA_run hooks prog c code nargs c' d0 args fuel out v hcomp hsafe htp hfit hd hentry hcap hfuel
+      hrun
+
+/-! ### non-vacuity: objects (let, subst with duplication = share, switch shared and unique) -/
+
+private def tBox : Ty := .decl ⟨"Box", 0⟩
+private def boxDecl : TypeDecl := { name := ⟨"Box", 0⟩, xtors := [⟨⟨"B", 0⟩, [⟨⟨"v", 102⟩, .ext, .i64⟩]⟩] }
+
+/-- main(x) { let b = B(x); subst (b1 := b)(b2 := b); switch b2 { B(y) => subst (y := y)(b1 := b1);
+      switch b1 { B(z) => s <- y + z; println s; exit s } } } -/
+private def boxMain : Def :=
+  { name := ⟨"main", 0⟩, ctx := [⟨⟨"x", 1⟩, .ext, .i64⟩],
+    body := .letS ⟨"b", 2⟩ tBox ⟨"B", 0⟩ [⟨⟨"x", 1⟩, .ext, .i64⟩]
+      (.subst [(⟨⟨"b1", 3⟩, .prd, tBox⟩, ⟨"b", 2⟩), (⟨⟨"b2", 4⟩, .prd, tBox⟩, ⟨"b", 2⟩)]
+        (.switch ⟨"b2", 4⟩ tBox
+          (.cons ⟨"B", 0⟩ [⟨⟨"y", 5⟩, .ext, .i64⟩]
+            (.subst [(⟨⟨"y", 6⟩, .ext, .i64⟩, ⟨"y", 5⟩), (⟨⟨"b1", 7⟩, .prd, tBox⟩, ⟨"b1", 3⟩)]
+              (.switch ⟨"b1", 7⟩ tBox
+                (.cons ⟨"B", 0⟩ [⟨⟨"z", 8⟩, .ext, .i64⟩]
+                  (.op ⟨"s", 9⟩ ⟨"y", 6⟩ .sum ⟨"z", 8⟩
+                    (.print true ⟨"s", 9⟩ (.exit ⟨"s", 9⟩) none) none) .nil) none))
+            .nil) none)) none }
+
+private def boxProg : Prog := { defs := [boxMain], types := [boxDecl], maxId := 102 }
+
+private def boxCode : List MockOp :=
+  match (compile mockSym true boxProg).run 0 with
+  | .ok ((code, _), _) => code
+  | .error _ => []
+
+/-- every hypothesis of `TheoremA_run` holds for `boxProg` started with x = 21: the abstract machine
+    prints 42 and returns 42 (the block is shared by `subst`, loaded once shared and once unique) -/
+example : ∃ fuel', Abs.run boxCode "main_" [21] fuel' = ⟨[(true, 42)], .done 42⟩ := by
+  have hcomp : ∃ n k, (compile mockSym true boxProg).run 0 = .ok ((boxCode, n), k) := ⟨_, _, rfl⟩
+  obtain ⟨nargs, c', hcomp⟩ := hcomp
+  have hsafe : LabelSafe boxProg = true := by decide
+  have hty : LinTypedProg boxProg := linTypedCheck_sound boxProg rfl
+  have hfit : CodeFits boxCode := by decide
+  have hrun : Pos.run boxProg [21] 20 = ⟨[(true, 42)], .done 42⟩ := by decide
+  exact TheoremA_run true boxProg 0 boxCode nargs c' boxMain [21] 20 _ _ hcomp hsafe hty hfit rfl
+    (by decide) (capacity_of_run boxProg 20 _ (by decide) (by decide)) (by decide) hrun
+
+/-! ### non-vacuity: closures (create, subst moving a closure, invoke) -/
+
+private def tFun : Ty := .decl ⟨"Fun", 0⟩
+private def funDecl : TypeDecl := { name := ⟨"Fun", 0⟩, xtors := [⟨⟨"Ap", 0⟩, [⟨⟨"a", 202⟩, .ext, .i64⟩]⟩] }
+
+/-- main(x) { create f : Fun = (x){ Ap(a) => s <- a + x; println s; exit s }; lit n <- 5;
+      subst (n := n)(f := f); invoke f Ap } -/
+private def funMain : Def :=
+  { name := ⟨"main", 0⟩, ctx := [⟨⟨"x", 1⟩, .ext, .i64⟩],
+    body := .create ⟨"f", 2⟩ tFun (some [⟨⟨"x", 1⟩, .ext, .i64⟩])
+      (.cons ⟨"Ap", 0⟩ [⟨⟨"a", 3⟩, .ext, .i64⟩]
+        (.op ⟨"s", 4⟩ ⟨"a", 3⟩ .sum ⟨"x", 1⟩ (.print true ⟨"s", 4⟩ (.exit ⟨"s", 4⟩) none) none) .nil)
+      (.lit ⟨"n", 5⟩ 5
+        (.subst [(⟨⟨"n", 6⟩, .ext, .i64⟩, ⟨"n", 5⟩), (⟨⟨"f", 7⟩, .cns, tFun⟩, ⟨"f", 2⟩)]
+          (.invoke ⟨"f", 7⟩ ⟨"Ap", 0⟩ tFun [⟨⟨"n", 6⟩, .ext, .i64⟩])) none) none none }
+
+private def funProg : Prog := { defs := [funMain], types := [funDecl], maxId := 202 }
+
+private def funCode : List MockOp :=
+  match (compile mockSym true funProg).run 0 with
+  | .ok ((code, _), _) => code
+  | .error _ => []
+
+example : ∃ fuel', Abs.run funCode "main_" [37] fuel' = ⟨[(true, 42)], .done 42⟩ := by
+  have hcomp : ∃ n k, (compile mockSym true funProg).run 0 = .ok ((funCode, n), k) := ⟨_, _, rfl⟩
+  obtain ⟨nargs, c', hcomp⟩ := hcomp
+  have hsafe : LabelSafe funProg = true := by decide
+  have hty : LinTypedProg funProg := linTypedCheck_sound funProg rfl
+  have hfit : CodeFits funCode := by decide
+  have hrun : Pos.run funProg [37] 20 = ⟨[(true, 42)], .done 42⟩ := by decide
+  exact TheoremA_run true funProg 0 funCode nargs c' funMain [37] 20 _ _ hcomp hsafe hty hfit rfl
+    (by decide) (capacity_of_run funProg 20 _ (by decide) (by decide)) (by decide) hrun
+
+/-! ## the ORIGINAL statement is false
+
+  `Sim.Rel` does not record whether a non-`ext` heap field is `prd` or `cns`, and `TheoremA_statement`
+  does not ask for typed values.  Counterexample: `main(x : prd T) { switch x { K(y : cns T) => … } }`
+  in a state where `x` is an object whose field is an OBJECT stored with kind `prd`: the positional
+  machine steps, the abstract machine is stuck at `load` (`load: kind-mismatch`). -/
+
+private def cxT : Ty := .decl ⟨"T", 0⟩
+private def cxDecl : TypeDecl := { name := ⟨"T", 0⟩, xtors := [⟨⟨"K", 0⟩, [⟨⟨"y", 10⟩, .cns, cxT⟩]⟩] }
+private def cxBody : Stmt := .subst [] (.lit ⟨"z", 3⟩ 0 (.exit ⟨"z", 3⟩) none)
+private def cxClause : Clause := ⟨⟨"K", 0⟩, [⟨⟨"y", 2⟩, .cns, cxT⟩], cxBody⟩
+private def cxMain : Def :=
+  { name := ⟨"main", 0⟩, ctx := [⟨⟨"x", 1⟩, .prd, cxT⟩],
+    body := .switch ⟨"x", 1⟩ cxT (.cons ⟨"K", 0⟩ [⟨⟨"y", 2⟩, .cns, cxT⟩] cxBody .nil) none }
+private def cxProg : Prog := { defs := [cxMain], types := [cxDecl], maxId := 10 }
+private def cxObj : Obj := ⟨0, [⟨.prd, 0, 0⟩]⟩
+private def cxCfg (a : Nat) : Config := ⟨a, [(0, 1), (1, 0)], none, [(1, cxObj)], 2, []⟩
+private def cxState : Pos.State := ⟨cxMain.ctx, [.obj 0 [.obj 0 []]], cxMain.body⟩
+
+theorem TheoremA_statement_false : ¬ TheoremA_statement := by
+  intro h
+  have hok : ∃ r, (compile mockSym true cxProg).run 0 = .ok r := ⟨_, rfl⟩
+  obtain ⟨⟨⟨code, nargs⟩, c'⟩, hcomp⟩ := hok
+  have hsafe : LabelSafe cxProg = true := by decide
+  have hty : LinTypedProg cxProg := linTypedCheck_sound cxProg rfl
+  have hnodup := C14Generic.labels_unique true cxProg 0 code nargs c' hcomp hsafe
+  have hmem : cxMain ∈ cxProg.defs := by simp [cxProg]
+  obtain ⟨a, ck, ck', ops, hlab, hrun, hat⟩ :=
+    defsAt_of_compile true cxProg 0 code nargs c' hcomp hnodup cxMain hmem
+  have R : Rel (Program.ofOps code) true cxProg cxState (cxCfg a) := {
+    len := rfl
+    cap := by decide
+    vals := by
+      intro i h1 h2
+      have hi : i = 0 := by simp [cxState, cxMain] at h1; omega
+      subst hi
+      refine ⟨?_, rfl, rfl, fun _ => rfl⟩
+      show RepVal _ _ _ _ (.obj 0 [.obj 0 []]) (some 1) (BitVec.ofNat 64 0)
+      exact .obj 0 _ 1 (.block _ _ 1 cxObj (by decide) rfl
+        (.cons _ _ ⟨.prd, 0, 0⟩ [] (.obj 0 [] 0 .empty) rfl .nil))
+    heap := {
+      pos := by show 0 < 2; decide
+      nodup := by show ([1] : List Nat).Nodup; decide
+      ids := by
+        intro e he
+        have : e = (1, cxObj) := by simpa [cxCfg] using he
+        subst this
+        show 0 < 1 ∧ 1 < 2 ∧ 1 < 2 ^ 64
+        decide
+      counts := by
+        intro e he
+        have : e = (1, cxObj) := by simpa [cxCfg] using he
+        subst this
+        rfl
+      live := by
+        intro id hid
+        by_cases h1 : id = 1
+        · subst h1; rfl
+        · exfalso
+          have : refCount (cxCfg a).heap (roots cxState.ctx (cxCfg a).temps) id = 0 := by
+            have hr : roots cxState.ctx (cxCfg a).temps = [1] := rfl
+            rw [hr]
+            have hne : ¬ (1 = id) := fun e => h1 e.symm
+            simp [refCount, cxCfg, cxObj, Obj.children, hne]
+          omega }
+    code := ⟨ck, ck', ops, hrun, hat⟩ }
+  have hsim := h true cxProg 0 code nargs c' hcomp hsafe hty cxState (cxCfg a) R (hty cxMain hmem)
+  unfold StepSimulated at hsim
+  have hstep : Pos.step cxProg cxState =
+      .next ⟨[⟨⟨"y", 2⟩, .cns, cxT⟩], [.obj 0 []], cxBody⟩ none := rfl
+  rw [hstep] at hsim
+  obtain ⟨k, cfg', hk, _, R'⟩ := hsim (by unfold WithinCapacity; decide)
+  -- the machine is stuck at the `load`
+  have hload : (Program.ofOps code).code[a]? = some (.load [.cns] 0) :=
+    switch_code_single (cl := cxClause) ⟨ck, ck', ops, hrun, hat⟩ (by decide) rfl
+  have hstuck : Abs.step (Program.ofOps code) (cxCfg a) = .halt (.stuck "load: kind-mismatch") := by
+    have hc : (Program.ofOps code).code[(cxCfg a).pc]? = some (.load [.cns] 0) := hload
+    have hg : (cxCfg a).temps.get (2 * 0) = some 1 := rfl
+    have hh : (cxCfg a).heap.get (1 : Word).toNat = some cxObj := rfl
+    have hne : ((1 : Word) == 0) = false := by decide
+    have hk' : (cxObj.fields.map (·.chi) != [Chi.cns]) = true := by decide
+    simp only [Abs.step, hc, getT, hg, hne, hh, hk', Bool.false_eq_true, if_false, if_true, Abs.stuck]
+  cases k with
+  | zero =>
+    simp only [stepsTo] at hk
+    subst hk
+    -- the same configuration does not represent the new state: position 0 is `obj 0 []`, its
+    -- pointer part would have to be null
+    obtain ⟨hrep, _⟩ := R'.vals 0 (by decide) (by decide)
+    have hrep' : RepVal (Program.ofOps code) true cxProg.types (cxCfg a).heap (.obj 0 []) (some 1)
+        ((Temps.get (cxCfg a).temps (2 * 0 + 1)).getD 0) := hrep
+    cases hrep' with
+    | obj _ _ _ hb => cases hb
+  | succ k =>
+    obtain ⟨c1, hs, _⟩ := hk
+    rw [hstuck] at hs
+    cases hs
+
 #print axioms TheoremA_heapfree
 #print axioms TheoremA_alloc
 #print axioms TheoremA_init
 #print axioms TheoremA_run_int
+#print axioms TheoremA_full
+#print axioms TheoremA_load
+#print axioms TheoremA_subst
+#print axioms TheoremA_run
+#print axioms TheoremA_statement_false
 
 end Scc.Props.C06Generic
